@@ -58,6 +58,15 @@ def make_pool(rng, kinds, big=False):
                     break
             v[8] = [2, [], [[0, len(v[9]) + 6], [len(v[9]) + 2, 1]]]
             pool[k][2] = Spec("D3", 1, v)
+        if k == "EM":
+            # ... and one of the EMG blocks always has gaps and is built from numpy masked arrays (the mask is the gaps)
+            for _ in range(40):
+                f, v = blocks.gen("EM", rng, big=4, nframes=rng.choice((3, 5, 8)))
+                if v[5] and any(fr == [] for sig in v[5] for fr in sig[1]) and any(fr != [] for sig in v[5] for fr in sig[1]):
+                    break
+            sp = Spec("EM", f, v)
+            sp.layout = "masked"
+            pool[k][2] = sp
     if big:
         # a payload larger than 64 KiB so that tail moves span several I/O chunks
         fmt, v = blocks.gen("EM", rng, big=2, nframes=9000)
